@@ -124,6 +124,20 @@ package webp
 //@   index nrgba.Pix: assert b.Min.Y <= y && y < b.Max.Y && idx - (y-b.Min.Y)*nrgba.Stride >= 0 && idx - (y-b.Min.Y)*nrgba.Stride < 4*w && (idx - (y-b.Min.Y)*nrgba.Stride) % 4 == 3
 //@   index rgba.Pix: assert b.Min.Y <= y && y < b.Max.Y && idx - (y-b.Min.Y)*rgba.Stride >= 0 && idx - (y-b.Min.Y)*rgba.Stride < 4*w && (idx - (y-b.Min.Y)*rgba.Stride) % 4 == 3
 //
+// The alpha extraction reads, for the output sample (x, y), exactly the alpha
+// byte of pixel (Min.X+x, Min.Y+y): every byte read from the pixel buffer lies
+// in row y of the image (y*Stride) among its first w pixels, at an alpha
+// position; the caller's buffer is never written.
+//@ func extractAlphaWith
+//@   property C19
+//@   requires img != nil && dynptr(img) != 0 && specBoundsSane(img)
+//@   loop 0: invariant 0 <= y
+//@   loop 2: invariant 0 <= y
+//@   loop 1: invariant 0 <= x && rowOff == y*nrgba.Stride + 3 + 4*x && 0 <= y && y < h
+//@   loop 3: invariant 0 <= x && rowOff == y*rgba.Stride + 3 + 4*x && 0 <= y && y < h
+//@   index nrgba.Pix: assert 0 <= y && y < h && idx - y*nrgba.Stride >= 0 && idx - y*nrgba.Stride < 4*w && (idx - y*nrgba.Stride) % 4 == 3
+//@   index rgba.Pix: assert 0 <= y && y < h && idx - y*rgba.Stride >= 0 && idx - y*rgba.Stride < 4*w && (idx - y*rgba.Stride) % 4 == 3
+//
 // ---- C02 / C15: the container written by Encode ----
 //
 //@ pure func le32w(i int) uint32 = uint32(wlog(i)) | uint32(wlog(i+1))<<8 | uint32(wlog(i+2))<<16 | uint32(wlog(i+3))<<24
